@@ -12,7 +12,8 @@ VARIABLES kind, n, n2, chunk, stride, skip, frame, atoms, pos, out, pc,
           fired     \* name of the deviation that shaped this behaviour, "" for the property's own meaning
 vars == <<kind, n, n2, chunk, stride, skip, frame, atoms, pos, out, pc, status, fired>>
 Min(a,b) == IF a < b THEN a ELSE b
-AtomSetsDef == {<<>>, <<0, 2, 5>>, <<3>>}   \* cfg files cannot hold tuples: AtomSets <- AtomSetsDef
+\* all atoms; irregular; single; contiguous; evenly spaced; uneven with span = first gap * (n-1) (looks evenly spaced to a careless test)
+AtomSetsDef == {<<>>, <<0, 2, 5>>, <<3>>, <<4, 5, 6, 7>>, <<1, 4, 7, 10>>, <<0, 2, 3, 6, 8>>, <<2, 5, 6, 9, 10>>}   \* cfg files cannot hold tuples: AtomSets <- AtomSetsDef
 \* strided read contract of the file classes: at most k frames p, p+s, ... (< nn);
 \* the position advances over k*s file frames (never past the end)
 StridedIds(p, k, s, nn) == LET m == Min(k, (nn - p + s - 1) \div s) IN
